@@ -62,30 +62,33 @@ def cmpName : Op → Option String
   | .eq => some "==" | .neq => some "!=" | .lt => some "<" | .le => some "<=" | .gt => some ">" | .ge => some ">="
   | _ => none
 
+/-- the value of an index row against the literal of a condition on an attribute -/
+def valHolds (o : Oracles) (t : Term) (a : AttrRow) : Bool :=
+  match t.val with
+  | .str _ (some s) =>
+    (match t.op with
+     | .eq => a.val == s
+     | .neq => a.val != s
+     | .re => o.reMatch s a.val
+     | .nre => !o.reMatch s a.val
+     | _ => false)
+  | .num n =>
+    (match cmpName t.op with
+     | some f => o.isNum a.val && o.numCmp f a.val (numText n)
+     | none => false)
+  | _ => false
+
+/-- the span duration against the literal of a condition on `duration` -/
+def durHolds (t : Term) (a : AttrRow) : Bool :=
+  match t.val with
+  | .dur n u => (match parseDuration n (some u) with | .ok ns => cmpInt t.op a.dur ns | .error _ => false)
+  | _ => false
+
 /-- does one index row witness the condition? -/
 def termHolds (o : Oracles) (t : Term) (a : AttrRow) : Bool :=
   match labelKey t.label with
-  | some k =>
-    a.key == k.toUTF8.toList &&
-    (match t.val with
-     | .str _ (some s) =>
-       (match t.op with
-        | .eq => a.val == s
-        | .neq => a.val != s
-        | .re => o.reMatch s a.val
-        | .nre => !o.reMatch s a.val
-        | _ => false)
-     | .num n =>
-       (match cmpName t.op with
-        | some f => o.isNum a.val && o.numCmp f a.val (numText n)
-        | none => false)
-     | _ => false)
-  | none =>
-    if t.label = "duration" then
-      (match t.val with
-       | .dur n u => (match parseDuration n (some u) with | .ok ns => cmpInt t.op a.dur ns | .error _ => false)
-       | _ => false)
-    else false
+  | some k => a.key == k.toUTF8.toList && valHolds o t a
+  | none => if t.label = "duration" then durHolds t a else false
 
 def bop : BoolOp → Bool → Bool → Bool
   | .and, a, b => a && b
@@ -97,6 +100,27 @@ def expHolds (f : Term → Bool) : AttrExp → Bool
   | .paren e => expHolds f e
   | .leafOp t op tail => bop op (f t) (expHolds f tail)
   | .parenOp e op tail => bop op (expHolds f e) (expHolds f tail)
+
+/-- the conditions written in a selector, left to right -/
+def termsOf : AttrExp → List Term
+  | .leaf t => [t]
+  | .paren e => termsOf e
+  | .leafOp t _ tail => t :: termsOf tail
+  | .parenOp e _ tail => termsOf e ++ termsOf tail
+
+/-- conditions with the same text are the same condition (true of parser output: the text determines
+    label, operator and literal, and `Unquote` is a function of the token) -/
+def KeyInj (u : List Term) : Prop := ∀ t ∈ u, ∀ t' ∈ u, t.key = t'.key → t = t'
+
+/-- the planner's tree over term indices, read over an assignment of the indices -/
+def Cond.eval (f : Nat → Bool) : Cond → Bool
+  | .leaf i => f i
+  | .node op l r => bop op (l.eval f) (r.eval f)
+
+/-- every index of the tree is below `n` -/
+def Cond.bounded (n : Nat) : Cond → Prop
+  | .leaf i => i < n
+  | .node _ l r => l.bounded n ∧ r.bounded n
 
 /-- a condition holds of a span iff one of the span's index rows inside the window witnesses it -/
 def spanTerm (o : Oracles) (c : Ctx) (d : TraceDb) (k : SpanKey) (t : Term) : Bool :=
